@@ -1,13 +1,15 @@
 #!/bin/sh
 # Runs, against every stored seeded change, the check of the property its author FILED it under (strict reading:
-# a change counts as detected only if that very check exits 1).   usage: lib/seedstrict.sh <scratchdir> [seed]
-D=$1; S=${2:-1}
+# a change counts as detected only if that very check exits 1).   usage: lib/seedstrict.sh <scratchdir> [seed] [k/n]
+# (k/n: only every n-th stored change, starting with the k-th - for running n sweeps side by side)
+D=$1; S=${2:-1}; PART=${3:-0/1}; PK=${PART%/*}; PN=${PART#*/}; IDX=0
 [ -d $D/repo ] || /verif/lib/scratch.sh $D >/dev/null
 rsync -a --exclude work --exclude replays --exclude .git --exclude evidence --exclude target /verif/ $D/verif/
 find $D/verif/harness \( -name '*.rs' -o -name Cargo.toml \) -not -path '*/target/*' | xargs sed -i "s#\"/repo/#\"$D/repo/#g"
 mkdir -p $D/verif/work; rsync -a /verif/work/cache/ $D/verif/work/cache/ --include 'e1_*' --exclude '*' 2>/dev/null
 for d in /verif/seeded/C*; do
   name=$(basename $d)
+  IDX=$((IDX + 1)); [ $((IDX % PN)) -eq $PK ] || continue
   p=$(python3 -c "import json,sys;print(json.load(open('$d/meta.json')).get('property') or '$name'[:3])" | cut -c1-3)
   cd $D/repo && git checkout -q -- . && git apply $d/patch.diff || { echo "$name patch does not apply"; continue; }
   cd $D/verif
